@@ -640,9 +640,37 @@ def crosscheck_task(item):
     return dict(out, domain=dom, u0=u0n)
 
 
+def phaseH(item):
+    """Cross-domain call history in ONE process: the three domains share boundary segments (e.g. x = 1, 0 <= y <= 1 of the unit
+    square and of the L-shape); loads of one domain must not depend on which domains were served before (module-level state)."""
+    _, order = item
+    st = new_stats()
+    for dom in order:
+        U = get_univ(dom, 1)
+        for k in sorted(U):
+            if (k[0], k[1]) != (0.0, 1.0) or aspect_k(k) > ASPECT:
+                continue
+            v, ips, prob = call_linform(get_M0(dom, 'one_driver'), U[k], set())
+            st['n'] += 1
+            st['cases'] += 1
+            rep = {'clause': 'exact', 'domain': dom, 'u0': 'one_driver', 'key': k, 'history': list(order)}
+            if v is None:
+                add_viol(st, {'domain': dom, 'clause': 'cross-domain-history', 'u0': 'one'}, '{} after {}: {}'.format(dom, order, prob), rep)
+                continue
+            ref = ref_load(dom, 'one', k, st)
+            err = abs(v - ref) / abs(ref)
+            add_class(st, 'cross-domain-history|{}'.format(dom), err)
+            if not err <= TOL_EXACT:
+                add_viol(st, {'domain': dom, 'clause': 'cross-domain-history', 'u0': 'one'},
+                         '{} u0=1 element t={} x={} evaluated in one process after the domains {}: linform {!r} exact {!r} relative error {:.3e}'.format(
+                             dom, k[:2], k[2:], list(order[:order.index(dom)]), v, ref, err), rep)
+    st['reads'] = sorted(st['reads'])
+    return st
+
+
 def task(item):
     t0 = time.time()
-    r = {'A': phaseA, 'B': phaseB, 'C': phaseC, 'mpL': mp_load_task, 'mpP': mp_point_task, 'X': crosscheck_task}[item[0]](item)
+    r = {'A': phaseA, 'B': phaseB, 'C': phaseC, 'H': phaseH, 'mpL': mp_load_task, 'mpP': mp_point_task, 'X': crosscheck_task}[item[0]](item)
     if isinstance(r, dict):
         r['task_seconds'] = round(time.time() - t0, 2)
     return r
@@ -678,6 +706,9 @@ def run(ctx):
                 continue
             items.append(('C', dom, u0n))
             items.append(('X', dom, oracle_name(u0n)))
+    import itertools as _it
+    for order in _it.permutations(DOMS):
+        items.append(('H', tuple(order)))
     res = pmap(task, items, ctx.jobs, chunksize=1)
 
     # ---- oracle validation first: a broken oracle is a harness error, never a verdict
@@ -713,10 +744,10 @@ def run(ctx):
     tot = new_stats()
     tot['reads'] = set()
     nviol_unreported = 0
-    per_phase = {'A': 0, 'B': 0, 'C': 0}
-    secs = {'A': 0.0, 'B': 0.0, 'C': 0.0}
+    per_phase = {'A': 0, 'B': 0, 'C': 0, 'H': 0}
+    secs = {'A': 0.0, 'B': 0.0, 'C': 0.0, 'H': 0.0}
     for it, r in zip(items, res):
-        if it[0] not in ('A', 'B', 'C'):
+        if it[0] not in ('A', 'B', 'C', 'H'):
             continue
         per_phase[it[0]] += r['n']
         secs[it[0]] += r['task_seconds']
